@@ -598,6 +598,8 @@ def install_configparser(reg):
     M = reg.methods
 
     def cp_new(p, args, kw):
+        if args or kw:
+            raise Unsupported("configparser.ConfigParser with non-default arguments (its parsing rules are not the assumed ones)")
         p.engine.assumption("configparser: option names are lower-cased, values are str, continuation lines joined with '\\n' "
                             "(assumed; exercised natively)")
         return p.alloc(HObj("ConfigParser", {}))
